@@ -378,6 +378,11 @@ func IsOnePass(n *nfa.NFA) bool {
 		return false
 	}
 
+	// Check look-around assertions: the DFA cannot evaluate them during search
+	if hasUnsupportedLook(n) {
+		return false
+	}
+
 	// Heuristic: small NFAs are more likely to be one-pass
 	// But we can't definitively say without full analysis
 	return true
